@@ -1,6 +1,7 @@
 package main
 
 import (
+	"go/token"
 	"go/types"
 	"strings"
 
@@ -143,6 +144,88 @@ func ruleErrPolarity(c *Ctx, r *Rep) {
 				badPos = fn.Pos()
 			}
 			r.Check(bad == "", "test|"+key, c.Pos(badPos), "a nil error is not reported and the results of a failed call are not used", bad)
+		}
+	}
+	okPolarity(c, r, consumers, isLog)
+}
+
+// okPolarity: the same for comma-ok forms (map lookups, type assertions): where ok is known to be false the value
+// that came with it is not used.
+func okPolarity(c *Ctx, r *Rep, consumers func(v ssa.Value, seen map[ssa.Value]bool) []ssa.Instruction, isLog func(ssa.CallInstruction) bool) {
+	for _, fn := range c.Funcs {
+		n := 0
+		for _, b := range fn.Blocks {
+			if len(b.Instrs) == 0 {
+				continue
+			}
+			iff, ok := b.Instrs[len(b.Instrs)-1].(*ssa.If)
+			if !ok {
+				continue
+			}
+			cond, neg := iff.Cond, false
+			if u, isNot := cond.(*ssa.UnOp); isNot && u.Op == token.NOT {
+				cond, neg = u.X, true
+			}
+			ex, isEx := cond.(*ssa.Extract)
+			if !isEx || ex.Index != 1 {
+				continue
+			}
+			what := ""
+			switch t := ex.Tuple.(type) {
+			case *ssa.Lookup:
+				if t.CommaOk {
+					what = "map lookup"
+				}
+			case *ssa.TypeAssert:
+				if t.CommaOk {
+					what = "type assertion"
+				}
+			case *ssa.Call:
+				// a module lookup function answering (value, found)
+				if f := t.Call.StaticCallee(); f != nil && c.InModule(f) && f.Signature.Results().Len() == 2 {
+					if bt, isB := f.Signature.Results().At(1).Type().Underlying().(*types.Basic); isB && bt.Kind() == types.Bool {
+						what = "call of " + c.FuncKey(f)
+					}
+				}
+			}
+			if what == "" {
+				continue
+			}
+			n++
+			failIdx := 1 // ok false: the else edge
+			if neg {
+				failIdx = 0
+			}
+			inFail := map[*ssa.BasicBlock]bool{}
+			for _, rb := range regionOf(b, failIdx) {
+				inFail[rb] = true
+			}
+			bad, pos := "", ex.Pos()
+			for _, ref := range *ex.Tuple.Referrers() {
+				co, isCo := ref.(*ssa.Extract)
+				if !isCo || co.Index != 0 {
+					continue
+				}
+				for _, use := range consumers(co, map[ssa.Value]bool{}) {
+					if !inFail[use.Block()] {
+						continue
+					}
+					if ci, isCall := use.(ssa.CallInstruction); isCall && (isLog(ci) || strings.HasPrefix(calleeFullName(ci), "fmt.")) {
+						continue
+					}
+					if _, isPhi := use.(*ssa.Phi); isPhi {
+						continue
+					}
+					if ret, isRet := use.(*ssa.Return); isRet && returnsNonNilError(ret) {
+						continue // handed back beside the error that reports the failure
+					}
+					bad, pos = "the value of a failed "+what+" is used where ok is known to be false", use.Pos()
+				}
+			}
+			if !pos.IsValid() {
+				pos = fn.Pos()
+			}
+			r.Check(bad == "", sprintf("ok-test|%s#%d", c.FuncKey(fn), n), c.Pos(pos), "the value of a failed lookup or assertion is not used", bad)
 		}
 	}
 }
